@@ -248,12 +248,22 @@ func runC17(c *Ctx) {
 							key = m[1] + m[2]
 						}
 					}
-					if nAbs == 0 && d < 2 && host.Object() != nil && !host.Object().Exported() {
+					isLit := host.Object() == nil && host.Parent() != nil
+					if nAbs == 0 && d < 2 && (isLit || (host.Object() != nil && !host.Object().Exported())) {
 						// the helper's own conditions, rendered with each call's arguments (the option name may be one of
 						// them), together with the conditions under which it is called
 						sites := 0
 						for _, hf := range fs {
-							for _, hc := range callsTo(hf, host) {
+							hcs := callsTo(hf, host)
+							if isLit && hf == host.Parent() {
+								// a function literal called where it is declared (through the local it is assigned to)
+								forEachInstr(hf, func(in ssa.Instruction) {
+									if lc, isC := in.(*ssa.Call); isC && localLiteral(lc) == host {
+										hcs = append(hcs, lc)
+									}
+								})
+							}
+							for _, hc := range hcs {
 								sites++
 								old := c.condEnv
 								c.condEnv = c.calleeEnv(&hc.Call, host, nil)
@@ -377,7 +387,7 @@ func runC17(c *Ctx) {
 		li := `strings.LastIndex($2,":")`
 		okSplit := false
 		for _, cl := range callsTo(parseDID, pis) {
-			if c.Path(cl.Call.Args[0], nil) == "$2[("+li+" + 1):]" {
+			if c.Path(cl.Call.Args[0], nil) == "$2[("+li+" + 1):]" || c.InlPath(cl.Call.Args[0], nil) == "$2[("+li+" + 1):]" {
 				okSplit = true
 			}
 		}
@@ -385,7 +395,7 @@ func runC17(c *Ctx) {
 		okDid := false
 		for _, r := range successReturns(parseDID) {
 			p0 := c.Path(r.Results[0], nil)
-			if p0 == "$2[:"+li+"]" {
+			if p0 == "$2[:"+li+"]" || c.InlPath(r.Results[0], nil) == "$2[:"+li+"]" {
 				okDid = true
 			}
 		}
@@ -700,6 +710,35 @@ func runC17(c *Ctx) {
 		if ap != nil {
 			c.CheckGuard("C17.P2", "GetCreateResult:apply-required", f, nil, &GCheck{Name: "Apply ok", MatchCall: func(c *Ctx, call *ssa.Call, env Env) bool { return call == ap }})
 			c.CheckGuard("C17.P2", "GetCreateResult:empty-document-refused", f, nil, cmpReject("len(doc) == 0 rejected", token.EQL, func(s string) bool { return strings.HasPrefix(s, "len(") && strings.Contains(s, ".Doc") }, pathIs("0")))
+			// what it hands on is the applier's model: the model itself, or a copy whose members are the same-named members
+			// of the applier's model (a member taken from the model handed TO the applier is empty)
+			{
+				A := c.Path(ap, nil) + "#0"
+				okRes := true
+				var bad []string
+				nRet := 0
+				rmT := c.NamedType("api/protocol", "ResolutionModel")
+				for _, r := range successReturns(f) {
+					nRet++
+					rv := returnedValue(r, 0)
+					if c.Path(rv, nil) == A {
+						continue
+					}
+					al, isAl := rv.(*ssa.Alloc)
+					if !isAl || rmT == nil || !types.Identical(derefT(al.Type()), rmT) {
+						okRes = false
+						bad = append(bad, c.pos(r.Pos())+": returns "+c.Path(rv, nil))
+						continue
+					}
+					for _, fs := range c.storesIntoObj(&builtObj{v: al}) {
+						if got := c.fsPath(fs); got != A+"."+fs.Field {
+							okRes = false
+							bad = append(bad, fmt.Sprintf("%s: %s = %s", c.pos(fs.Instr.Pos()), fs.Field, got))
+						}
+					}
+				}
+				c.Check("C17.P2", "GetCreateResult:hands-on-the-applier's-model", okRes && nRet > 0, f.Pos(), "the result is the model the applier returned (or a copy of it, member for member)", bad...)
+			}
 			// the anchored operation is built from the parsed operation
 			anT := c.NamedType("api/operation", "AnchoredOperation")
 			for _, a := range allocsOf(f, anT) {
@@ -722,6 +761,7 @@ func runC17(c *Ctx) {
 	c.rawServiceRule("C08.P3")
 	// … and the resolved document carries keys and services alike: both transformer steps run on every accepting path
 	c.transformStepsRule("C18.P1")
+	c.relationshipListsSeparateRule("C18.T1")
 	// the initial state's patches are applied by the composer (all of C10: a handler that rewrites what it stores — a
 	// URI re-serialised, a key merged — resolves to a document that is not the one supplied), and the suffix is a hash of
 	// the canonical form (the JCS rules)
